@@ -268,7 +268,9 @@ impl Engine for E8 {
         &["calls_overlap", "two_tasks_in_sink", "two_tasks_in_handler", "failure_while_other_in_handler", "handler_called", "sink_refused_try_send", "nested_same_client_ran"]
     }
 
-    fn generate(rng: &mut Rng, _focus: &str, _tier: Tier) -> ShCase {
+    fn generate(rng: &mut Rng, _focus: &str, tier: Tier) -> ShCase {
+        // thorough tier: half of the cases have up to six callers and programs twice as long
+        let deep = tier == Tier::Thorough && rng.split(9).chance(1, 2);
         let mut cfg = rng.split(1);
         let mut prog = rng.split(2);
         let mut flt = rng.split(3);
@@ -284,12 +286,12 @@ impl Engine for E8 {
             default_tags.push((if cfg.chance(1, 2) { Some(hostile_string(&mut cfg, 4)) } else { None }, hostile_string(&mut cfg, 4)));
         }
         let handler = cfg.chance(5, 6);
-        let n_tasks = 2 + cfg.usize_below(3);
+        let n_tasks = 2 + cfg.usize_below(if deep { 5 } else { 3 });
         let rate = *flt.pick(&[10u64, 40, 70, 100]);
         let quiet_bias = cfg.chance(1, 2);
         let mut tasks = Vec::new();
         for _ in 0..n_tasks {
-            let n = 1 + prog.usize_below(6);
+            let n = 1 + prog.usize_below(if deep { 12 } else { 6 });
             let mut v = Vec::new();
             for _ in 0..n {
                 let mut c = gen_call(&mut prog);
